@@ -247,6 +247,10 @@ def run(tier, replay=None):
     rep.floor('layout locales', nloc, 700)
     rep.floor('decision-list paths', o1['paths'] + o0['paths'], 20)
     rep.extra['exhaustive'] = True
+    # the direction lookups key on the integer forms of the stored language / script text: one canonical stored form per subtag, und = None (shared with C15)
+    from . import validators, subtag_api
+    validators.run_all(common.program('K0'), rep, roles_wanted={'Language', 'Script', 'Region', 'Variant'})
+    subtag_api.language_empty(common.program('K0'), rep, validators.load_roles())
     rep.explanation = ('(a) the four direction constants equal, as sets, the independent derivation from the 710 layout files and are pairwise disjoint (data rules); '
                        '(b) character_direction is read from MIR as a decision list whose atoms are all interpretable (presence, membership in a direction constant, outcome of '
                        'maximize(language, None, region)); variants are never read; (c) the checker applies that list, with its own model of maximize built from likelySubtags.json, '
